@@ -17,7 +17,7 @@ POOL = {"flow": ["t3", "t5", "t7", "w9", "xneg", "xwarm"], "iso": ["c1", "c2", "
 # parameter sets that differ from a pool member in exactly one field other than the threshold (pacing interval, maximum queueing
 # time, warm-up period / cold factor, a per-value override, burst, parameter index, retry timeout, minimum request amount, slow-call
 # bound, adaptive strategy): a rule equality (or hash) that overlooks a field makes a replacement look like "unchanged"
-VARIANTS = {"flow": ["h4", "h4i", "h4q", "p5", "p5o", "w9p", "w9c"], "hs": ["q2o", "q2b", "q2i", "q2k"], "br": ["r5t", "r5m", "s5m"], "sys": ["l5b"], "iso": []}
+VARIANTS = {"flow": ["h4", "h4i", "h4q", "p5", "p5o", "w9p", "w9c"], "hs": ["q2o", "q2b", "q2i", "q2k"], "br": ["r5t", "r5m", "s5m", "e2w"], "sys": ["l5b"], "iso": []}
 
 
 def gen_case(rng, tier):
